@@ -5,6 +5,7 @@ import (
 	"math"
 	"sort"
 	"strings"
+	"time"
 
 	"github.com/gcash/bchd/chaincfg/chainhash"
 	"github.com/gcash/bchd/txscript"
@@ -139,8 +140,17 @@ func hashList(v []*chainhash.Hash) string {
 	return joinOr(s, ",")
 }
 func mmsgTok(m *wire.MsgMerkleBlock) string {
-	return u64s(uint64(m.Transactions)) + "/" + hashList(m.Hashes) + "/" + hx(m.Flags)
+	t := u64s(uint64(m.Transactions)) + "/" + hashList(m.Hashes) + "/" + hx(m.Flags)
+	// every block built by the harness carries testHeader: the message must carry the block's header
+	if m.Header != testHeader {
+		t += "!header"
+	}
+	return t
 }
+
+var testHeader = wire.BlockHeader{Version: 0x20000002, PrevBlock: chainhash.Hash{1, 2, 3}, MerkleRoot: chainhash.Hash{9, 8, 7},
+	Timestamp: time.Unix(1600000000, 0), Bits: 0x1d00ffff, Nonce: 0x12345678}
+
 func extractTok(m *wire.MsgMerkleBlock) string {
 	pb := merkleblock.NewMerkleBlockFromMsg(*m)
 	root := pb.ExtractMatches()
@@ -235,7 +245,8 @@ func execBloom(c Case) string {
 		}
 		return "EXT " + strings.Join(ext, "|") + " RES " + strings.Join(res, ",") + " " + filterBits(f)
 	case "blk":
-		blk := wire.NewMsgBlock(&wire.BlockHeader{})
+		hdr := testHeader
+		blk := wire.NewMsgBlock(&hdr)
 		ext := []string{}
 		if a[4] != "-" {
 			for _, ts := range strings.Split(a[4], "|") {
@@ -258,7 +269,8 @@ func execBloom(c Case) string {
 	case "mb": // mb <n> <salt> <matched bits> <dups>
 		n := atoi(a[0])
 		salt := uint32(atou(a[1]))
-		blk := wire.NewMsgBlock(&wire.BlockHeader{})
+		hdr := testHeader
+		blk := wire.NewMsgBlock(&hdr)
 		leaves := []string{}
 		set := []*chainhash.Hash{}
 		for i := 0; i < n; i++ {
@@ -330,7 +342,11 @@ func genFilterArgs(r *Rng, small bool) []string {
 	if r.Intn(3) == 0 {
 		bits = r.Bytes(ln)
 	}
-	return []string{hx(bits), itoa(nh), u64s(uint64(tw)), itoa(r.Intn(3))}
+	fl := r.Intn(3)
+	if r.Intn(10) == 0 {
+		fl = r.Pick(3, 4, 0x81, 0x82, 0xff) // legal on the wire, no named meaning
+	}
+	return []string{hx(bits), itoa(nh), u64s(uint64(tw)), itoa(fl)}
 }
 
 func genC09(r *Rng, tier string, emit func(Case)) {
@@ -568,6 +584,9 @@ func seededFilter(g *genCtx, txs []*wire.MsgTx) []string {
 	nh := r.Pick(1, 2, 3, 5, 10, 0)
 	tw := uint32(r.U64())
 	flags := r.Intn(3)
+	if r.Intn(10) == 0 {
+		flags = r.Pick(3, 4, 0x81, 0x82, 0xff)
+	}
 	f := bloom.LoadFilter(wire.NewMsgFilterLoad(make([]byte, ln), uint32(nh), tw, wire.BloomUpdateType(flags)))
 	for _, s := range g.secret {
 		if r.Intn(3) > 0 {
